@@ -403,7 +403,7 @@ def run(tier, seed):
         rep.violations.append((dict(kind='model-vs-impl', what=b, correspondence='Paths.Posix vs posixpath'), False))
     ncases = 18 if tier == 'quick' else 120
     cases = [seed * 100000 + 13000 + i for i in range(ncases)]
-    for r in core.run_cases(run_case, cases, timeout=1500 if tier == 'quick' else 7000):
+    for r in core.run_cases(run_case, core.with_corpus(PID, cases), timeout=1500 if tier == 'quick' else 7000):
         rep.merge(r)
     return rep.finish(
         level_rule=("cases = generated plotfiles / checkpoint in a scratch tree, the process running from another directory; input and output "
